@@ -4,7 +4,7 @@ import ast
 
 from ..src import AnalysisError, unparse, norm_stmt, walk_no_nested
 from ..label import World, bond, Node, T, Dim, flip, split_args, check_network, TreeSym
-from ..syminterp import Sym, SymDict, SymInterp, Blob, OpenSym
+from ..syminterp import Sym, SymDict, SymInterp, Blob, OpenSym, SymRaise
 from .. import qn as Q
 
 TREE = "renormalizer/tn/tree.py"
@@ -105,6 +105,11 @@ def _recorder(direct=(), dangling_ok=()):
         rec.append({"pairs": pairs, "out": out, "probs": probs, "res": res})
         return res
     return rec, oe_contract
+
+
+def _dimset(d):
+    """a size is a commutative product of named dimensions"""
+    return tuple(sorted(d.names)) if isinstance(d, Dim) else d
 
 
 def _names(pairs):
@@ -304,12 +309,16 @@ def state_networks(chk, src, topologies=NET_TOPOLOGIES, which=ALL_STATE, floor=2
             w.overrides[("ttns", "metacopy")] = lambda: new_tree
             out = w.interp.call_function(fap, [w.ttno, w.ttns])
             chk.ob("state-network", f"TTNO.apply returns the new state [{topo}]", out is new_tree and len(rec) == nn, fap.where, f"{len(rec)} contractions, returns {out!r}", f"{nn} contractions, returns the metacopy", line=fap.node.lineno)
+            # the (state, operator) order inside a merged bond is a convention; it has to be one convention for every bond of every node and for the labels:
+            # taken from the first merged pair of the first node (state-major in the reference), then demanded everywhere
+            first = [l for l in (rec[0]["res"].legs if rec else []) if l[0] in ("ket", "op")]
+            op_major = bool(first) and first[0][0] == "op"
             for n_idx in range(min(nn, len(rec))):
                 n, o, n2, r = w.snodes[n_idx], w.onodes[n_idx], new_nodes[n_idx], rec[n_idx]
                 want = []
                 for l in n.tensor.legs:
                     if l[0] == "ket":
-                        want += [l, ("op", l[1])]
+                        want += [("op", l[1]), l] if op_major else [l, ("op", l[1])]
                     else:
                         want.append(("bphys", l[1], l[2]))
                 _net_ob(chk, "state-network", f"TTNO.apply [{topo}: {n}]", fap, r, [repr(n.tensor), repr(o.tensor)], want,
@@ -319,12 +328,13 @@ def state_networks(chk, src, topologies=NET_TOPOLOGIES, which=ALL_STATE, floor=2
                 want_shape = []
                 for l in n.tensor.legs:
                     want_shape.append((1 if l[1][0] == "root" else Dim([str(l), str(("op", l[1]))])) if l[0] == "ket" else Dim([str(l)]))
-                chk.ob("state-network", f"TTNO.apply merged shape [{topo}: {n}]", shape is not None and list(shape) == want_shape and rs.t is r["res"], fap.where, [repr(d) for d in (shape or [])], [repr(d) for d in want_shape], line=fap.node.lineno,
+                chk.ob("state-network", f"TTNO.apply merged shape [{topo}: {n}]", shape is not None and [_dimset(d) for d in shape] == [_dimset(d) for d in want_shape] and rs.t is r["res"], fap.where, [repr(d) for d in (shape or [])], [repr(d) for d in want_shape], line=fap.node.lineno,
                        detail="each (state bond, operator bond) pair of the result is merged into one axis of size D_state * D_operator, physical axes keep the state's size; the result is stored on the same node of the new state")
                 q = n2.__dict__.get("qn")
-                okq = isinstance(q, _Outer) and (q.a, q.b) == (f"state-qn({n})", f"operator-qn({o})")
-                chk.ob("state-network", f"TTNO.apply merged quantum numbers [{topo}: {n}]", okq, fap.where, (q.a, q.b) if isinstance(q, _Outer) else repr(q), (f"state-qn({n})", f"operator-qn({o})"), line=fap.node.lineno,
-                       detail="the merged parent bond is (state, operator) with the state index major: its quantum numbers must be add_outer(state qn, operator qn) in the same order, otherwise the "
+                wq = (f"operator-qn({o})", f"state-qn({n})") if op_major else (f"state-qn({n})", f"operator-qn({o})")
+                okq = isinstance(q, _Outer) and (q.a, q.b) == wq
+                chk.ob("state-network", f"TTNO.apply merged quantum numbers [{topo}: {n}]", okq, fap.where, (q.a, q.b) if isinstance(q, _Outer) else repr(q), wq, line=fap.node.lineno,
+                       detail=f"the merged parent bond is (state, operator) with the {'operator' if op_major else 'state'} index major: its quantum numbers must be add_outer of the two label arrays in the same order, otherwise the "
                               "labels of the merged bond are permuted (invisible when either bond has dimension one or all labels are equal)")
         # ---- todense
         for who, fi in (("ttns", ftd_s), ("ttno", ftd_o)):
@@ -2013,3 +2023,106 @@ def must_update(chk, src):
             chk.ob("must-update", f"{qual}: exit at statement `{unparse(r)[:40]}`", not missing, fi.where, {"not yet written": missing} if missing else "all written", what, line=r.lineno,
                    detail=f"{qual} can return before it has written {missing}: e.g. a `nothing to truncate` shortcut that skips handing the singular values to the neighbour leaves the "
                           "canonical centre behind, so the bonds below are truncated against a non-orthonormal environment (the result still passes the shape and canonical checks)")
+
+
+# ---------------------------------------------------------------------------------------------- chain -> tree conversion
+def chain_conversion(chk, src, n=4):
+    """abstract run of tn/tree.py::from_mps on a symbolic n-site chain state; MatrixProduct.move_qnidx is run from its own source on tagged bond labels
+    ('L' = quantum number of the sites to the left of the bond, 'R' = of the sites to the right).  Expected: the chain is left-canonical when its
+    tensors are read; tree node k (counted from the leaf) receives the tensor of chain site k, the leaf without the dummy left bond; its label is the
+    'L' label of bond k+1 (the quantum number of its subtree), in particular the root carries the total."""
+    chk.rule("chain-conversion", "from_mps: node k gets site k's tensor and the subtree ('left system') label of bond k+1, the root the total; the chain is left-canonical first", 1)
+    fi = src.func(TREE, "from_mps")
+    mv = src.func("renormalizer/mps/mp.py", "MatrixProduct.move_qnidx")
+    problems = []
+
+    class QTag:
+        def __init__(self, side, idx):
+            self.side, self.idx = side, idx
+
+        def __repr__(self):
+            return f"{self.side}{self.idx}"
+
+        def __eq__(self, o):
+            return isinstance(o, QTag) and (self.side, self.idx) == (o.side, o.idx)
+
+        __hash__ = None
+
+    class QTot(Sym):
+        def __sub__(self, o):
+            if not isinstance(o, QTag):
+                raise AnalysisError(f"qntot - {o!r}")
+            return QTag("R" if o.side == "L" else "L", o.idx)
+
+    class SiteT(Sym):
+        def __init__(self, i, cut=None):
+            super().__init__(f"site{i}")
+            self.i, self.cut = i, cut
+
+        @property
+        def array(self):
+            return self
+
+        def __getitem__(self, k):
+            kk = k if isinstance(k, tuple) else (k,)
+            if self.cut is None and kk and kk[0] == 0 and all(x is Ellipsis or x == slice(None) for x in kk[1:]):
+                return SiteT(self.i, "[left bond 0]")
+            return SiteT(self.i, (self.cut or "") + f"[{k!r}]")
+
+        def reshape(self, *shape):
+            return SiteT(self.i, (self.cut or "") + f".reshape{shape!r}")
+
+        def __repr__(self):
+            return f"site{self.i}" + (self.cut or "")
+
+    class Chain(Sym):
+        def __len__(self):
+            return n
+
+        def __getitem__(self, i):
+            if isinstance(i, int) and 0 <= i < n:
+                reads.append((i, self.state))
+                return SiteT(i)
+            raise AnalysisError(f"chain site {i!r}")
+
+    reads = []
+    it = SymInterp(src, None, {})
+    it.max_depth = 12
+    # the chain as handed in: arbitrary centre c (labels left of c are 'L', right of c are 'R'), not canonical
+    for c in (0, 1, n - 1):
+        reads.clear()
+        mps = Chain("mps", state="any", qnidx=c, site_num=n, qntot=QTot("qntot"), qn=[QTag("L" if b <= c else "R", b) for b in range(n + 1)],
+                    model=Sym("model", basis=[f"b{k}" for k in range(n)], ham_terms="ham_terms"))
+
+        def ensure_left(mps=mps):
+            # MatrixProduct.ensure_left_canonical (decided in C04 'ensure-consistency'): labels moved to the last site, state left-canonical
+            it.call_function(mv, [mps, n - 1])
+            mps.state = "left-canonical"
+        mps.__dict__.update(copy=lambda mps=mps: mps, ensure_left_canonical=ensure_left, ensure_right_canonical=lambda: setattr(mps, "state", "right-canonical"),
+                            move_qnidx=lambda k, mps=mps: it.call_function(mv, [mps, k]), canonicalise=lambda *a, **k: setattr(mps, "state", "unknown"))
+        nodes = [Sym(f"node{k}", tensor=None, qn=None) for k in range(n)]   # node_list[0] = root (pre-order), node_list[-1] = leaf
+        ttns = Sym("ttns", node_list=nodes, check_shape=lambda: None, check_canonical=lambda: None, root=nodes[0])
+        lin = []
+        it.builtins.update({"BasisTree": Sym("BasisTree", linear=lambda bs: lin.append(list(bs)) or "basis"), "TTNS": lambda b, *a, **k: ttns, "TTNO": lambda b, t, *a, **k: ("ttno", b, t)})
+        try:
+            res = it.call_function(fi, [mps])
+        except (SymRaise, IndexError, KeyError) as e:
+            problems.append(f"centre {c}: {type(e).__name__}: {e}")
+            continue
+        if not (isinstance(res, tuple) and len(res) == 3 and res[1] is ttns):
+            problems.append(f"centre {c}: the converted state is not returned")
+            continue
+        if lin != [[f"b{k}" for k in range(n)][::-1]]:
+            problems.append(f"centre {c}: linear tree built on {lin}, expected the reversed basis list (root = last site)")
+        for k in range(n):
+            node = nodes[n - 1 - k]
+            want_t = f"site{k}" + ("[left bond 0]" if k == 0 else "")
+            if repr(node.tensor) != want_t:
+                problems.append(f"centre {c}: node {k} from the leaf gets tensor {node.tensor!r}, expected {want_t}")
+            if node.qn != QTag("L", k + 1):
+                problems.append(f"centre {c}: node {k} from the leaf gets label {node.qn!r}, expected L{k + 1} (quantum number of its subtree" + ("; the root must carry the total)" if k == n - 1 else ")"))
+        if any(st != "left-canonical" for _, st in reads) or sorted({i for i, _ in reads}) != list(range(n)):
+            problems.append(f"centre {c}: site tensors read in state {sorted({st for _, st in reads})}; the root is the gauge centre only if the chain is left-canonical")
+    chk.ob("chain-conversion", "from_mps on a symbolic chain (centres 0, 1, last)", not problems, fi.where, problems[:2] or "as expected", "as expected", line=fi.node.lineno,
+           detail="chain -> tree conversion: " + (problems[0] if problems else "") + " - a node label that is not the quantum number of its subtree makes every symmetry-blocked decomposition "
+                  "(compress, canonicalise, entropies) discard wrong blocks in non-zero sectors")
